@@ -876,6 +876,10 @@ def _sd_method_cases():
             for p in pars:
                 out.append(dict(dist=name, meth=meth, how="kw", p=p))
         out.append(dict(dist=name, meth="cdf", how="unknown_kw"))
+        # history: an instance of ANOTHER subclass (different parameter list) is built in between - instances of
+        # different subclasses share no state
+        for p in pars:
+            out.append(dict(dist=name, meth="cdf", how="kw", p=p, other=[o for o in SCIPY_SUB if o != name][-1]))
     return out
 
 
@@ -885,7 +889,7 @@ class ScipyMethods(Contract):
     positional / keyword value replacing exactly its own parameter (real constructor + real methods)"""
 
     def case_label(self, case):
-        return f"{case['dist']}.{case['meth']},{case['how']}" + (f"={case['p']}" if case["how"] == "kw" else "")
+        return f"{case['dist']}.{case['meth']},{case['how']}" + (f"={case['p']}" if case["how"] == "kw" else "") + (f",after_ctor_of={case['other']}" if case.get("other") else "")
 
     def inputs(self, itp, case):
         return [], {}
@@ -897,6 +901,9 @@ class ScipyMethods(Contract):
         fv = make_fv_(itp, SD + ".__init__")
         stored = [real(cx, f"stored_{p}") for p in pars]
         itp.call_function(fv, [obj] + stored, {})
+        if case.get("other"):
+            obj2 = scipy_sub_obj(case["other"])
+            itp.call_function(fv, [obj2] + [real(cx, f"other_{p}") for p in SCIPY_SUB[case["other"]]], {})
         n = cx.sym("n", "int")
         cx.assume(T.ge(n, 1))
         x = sym_array(cx, "x", (n,))
